@@ -433,10 +433,30 @@ impl Driver {
         }
     }
 
+    /// Make sure the multishot poll on the notifier's eventfd is queued, so that a wake-up
+    /// from another thread produces a completion (and makes the ring fd readable).
+    fn arm_notifier(&mut self) -> io::Result<()> {
+        if self.flags.contains(DriverFlags::NEED_PUSH_NOTIFIER) {
+            #[allow(clippy::useless_conversion)]
+            self.push_raw(
+                PollAdd::new(Fd(self.notifier.as_raw_fd()), libc::POLLIN as _)
+                    .multi(true)
+                    .build()
+                    .user_data(Self::NOTIFY)
+                    .into(),
+            )?;
+            self.flags.remove(DriverFlags::NEED_PUSH_NOTIFIER);
+        }
+        Ok(())
+    }
+
     pub fn flush(&mut self) -> bool {
+        // An external event loop waits on the ring fd after `flush`: the notifier must be
+        // armed before that, not only by the next `poll`.
+        let armed = self.arm_notifier().is_ok();
         let succeed = self.submit_auto(Some(Duration::ZERO), false).is_ok();
-        // If submission failed, return true to let the driver wake up immediately.
-        !succeed | self.notifier.reset()
+        // If arming or submission failed, return true to let the driver wake up immediately.
+        !armed | !succeed | self.notifier.reset()
     }
 
     pub fn poll(&mut self, timeout: Option<Duration>) -> io::Result<()> {
@@ -450,17 +470,7 @@ impl Driver {
 
         let need_wait = !self.notifier.reset();
 
-        if self.flags.contains(DriverFlags::NEED_PUSH_NOTIFIER) {
-            #[allow(clippy::useless_conversion)]
-            self.push_raw(
-                PollAdd::new(Fd(self.notifier.as_raw_fd()), libc::POLLIN as _)
-                    .multi(true)
-                    .build()
-                    .user_data(Self::NOTIFY)
-                    .into(),
-            )?;
-            self.flags.remove(DriverFlags::NEED_PUSH_NOTIFIER);
-        }
+        self.arm_notifier()?;
 
         self.submit_auto(timeout, need_wait)?;
 
